@@ -6,7 +6,7 @@
    theorems are generic in the bit width.  *_refuted / *_partial / *_iff: the statement at full strength is false
    of the unchanged plugin (witness), and holds exactly / at least on the stated domain. *)
 From Coq Require Import ZArith Bool List.
-From J2O Require Import PyLib Dtype Tensor Batch Reshape Graph Lowering LoweringSem OnnxInt Kernels Lift LiftProg LiftReduce LiftCall LiftStruct.
+From J2O Require Import PyLib Dtype Tensor Batch Reshape Graph Lowering LoweringSem OnnxInt Kernels Lift LiftProg LiftReduce LiftCall LiftStruct LiftDyn.
 Import ListNotations.
 Open Scope Z_scope.
 
@@ -780,3 +780,22 @@ Theorem C01K_arg_kernels_ok : forall rk sbi mask, (rk = RArgMax \/ rk = RArgMin)
   gkern_ok ssem (gk_arg rk sbi mask) /\ gkern_ok ssem (gk_arg_id rk mask).
 Proof. intros. split; [now apply gk_arg_ok | now apply gk_arg_id_ok]. Qed.
 Print Assumptions C01K_arg_kernels_ok.
+(* cumsum on integers: running wrapped sums; and the Cast(int32) -> CumSum -> Cast lowering for 8- / 16-bit integers *)
+Theorem C01K_cumsum_correct : forall sb l, 0 < snd sb -> o_cumsum sb 0 l = jax_cumsum sb l.
+Proof. exact cumsum_correct. Qed.
+Print Assumptions C01K_cumsum_correct.
+Theorem C01K_cumsum_via32_correct : forall sb l, 0 < snd sb <= 32 -> lowered_cumsum_via32 sb l = jax_cumsum sb l.
+Proof. exact cumsum_via32_correct. Qed.
+Print Assumptions C01K_cumsum_via32_correct.
+(* ================================================================ lax.dynamic_slice on tensors of any rank (LiftDyn.v):
+   the window product of the one-axis kernel (C01K dynamic_slice_correct: normalise, clamp into [0, dim - size], Slice) *)
+Theorem C01K_dynamic_slice_nd_correct : forall (A : Type) sb sizes starts (X : tensor A),
+  sb = I32 \/ sb = I64 -> ds_ok sb (dims_of X) sizes starts ->
+  onnx_dynamic_slice_t sb sizes starts X = jax_dynamic_slice_t sb sizes starts X.
+Proof. exact @dynamic_slice_nd_correct. Qed.
+Print Assumptions C01K_dynamic_slice_nd_correct.
+(* select_n with an integer selector and three cases: the Cast / Equal / Where cascade is an elementwise exact kernel
+   (side condition 0 <= which <= 2, JAX's own contract) *)
+Theorem C01K_select3_kernel_ok : kern_ok ki_select3.
+Proof. exact ki_select3_ok. Qed.
+Print Assumptions C01K_select3_kernel_ok.
